@@ -81,6 +81,10 @@ type WorldCfg struct {
 	DBBackend     string // "" (memdb) | "goleveldb"
 	Home          string // if empty, a temp dir
 	MinGasPrice   string // node-local config, must not matter
+	// Keyless: every validator except the one with index KeyedVal runs without a bridge key (the real ExtendVote then
+	// sends an empty extension: a supported mode of operation), so only that one ever registers an EVM address
+	Keyless  bool
+	KeyedVal int
 }
 
 func DefaultWorldCfg(seed int64) WorldCfg {
